@@ -12,7 +12,7 @@ from .core import AnalysisError, FuncInfo, Program, short
 
 VERIF = os.path.dirname(os.path.dirname(os.path.abspath(__file__)))
 KNOWN_FILE = os.path.join(VERIF, "known_findings.json")
-EVIDENCE_DIR = os.path.join(VERIF, "evidence")
+EVIDENCE_DIR = os.environ.get("SERIFSCAN_EVIDENCE_DIR") or os.path.join(VERIF, "evidence")
 
 
 @dataclass
